@@ -5,9 +5,12 @@ package iam
 import (
 	"crypto"
 	"errors"
+	"net/url"
 
 	ssi "github.com/nuts-foundation/go-did"
 	"github.com/nuts-foundation/go-did/vc"
+	"github.com/nuts-foundation/nuts-node/storage"
+	"github.com/nuts-foundation/nuts-node/vcr/pe"
 	"github.com/nuts-foundation/nuts-node/vcr/revocation"
 	"github.com/nuts-foundation/nuts-node/vcr/signature"
 	"github.com/nuts-foundation/nuts-node/vcr/signature/proof"
@@ -63,21 +66,36 @@ func hC02RealVerifier() verifier.Verifier {
 	return verifier.NewVerifier(nil, nil, &hC02KeyResolver{}, hC02JSONLD{}, nil, &revocation.StatusList2021{})
 }
 
-// hC02Offer submits one presentation to the checks that concern time and nonce, in the order of
-// handleS2SAccessTokenRequest: max validity, nonce (always recorded once reached), signature/validity
-// period (real verifier.VerifyVP -> signatureVerifier.jsonldProof -> ProofOptions.ValidAt(now, maxSkew)).
-func hC02Offer(r Wrapper, vp vc.VerifiablePresentation) bool {
-	if err := validateS2SPresentationMaxValidity(vp); err != nil {
-		return false
-	}
-	if err := r.validateS2SPresentationNonce(vp); err != nil {
-		return false
-	}
-	if _, err := r.vcr.Verifier().VerifyVP(vp, true, true, nil); err != nil {
-		return false
-	}
-	return true
+// hC02Offer submits one (credential-less, JSON-LD) presentation through the real handleS2SAccessTokenRequest;
+// everything that does not concern time and nonce is in order (envelope and submission parse, the submission
+// fulfils the scope's definition, no DPoP header), the signature verdict is hC02SigVerdict, the validity period
+// is checked by the real verifier (VerifyVP -> signatureVerifier.jsonldProof -> ProofOptions.ValidAt(now, maxSkew)).
+// It reports whether an access token was issued.
+func hC02Offer(r Wrapper, vp vc.VerifiablePresentation, clientID string) bool {
+	hC02Envelope = &pe.Envelope{Presentations: []vc.VerifiablePresentation{vp}}
+	hC02Submission = &pe.PresentationSubmission{Id: "sub", DefinitionId: "o"}
+	hC02PEXVerdict = true
+	hC02DPoPOK = true
+	resp, err := r.handleS2SAccessTokenRequest(hC02Ctx(false), clientID, "s", "r", "submission", "assertion")
+	_, is200 := resp.(HandleTokenRequest200JSONResponse)
+	return err == nil && is200
 }
+
+// hC02OfferWrapper: a Wrapper for hC02Offer over the given session database.
+func hC02OfferWrapper(db storage.SessionDatabase) Wrapper {
+	publicURL, _ := url.Parse("https://n")
+	pol := hC02Policy{scope: "r", mapping: pe.WalletOwnerMapping{pe.WalletOwnerOrganization: pe.PresentationDefinition{Id: "o"}}}
+	return Wrapper{storageEngine: hC02OfferEngine{db: db}, auth: hC02Auth{publicURL: publicURL}, vcr: hC02VCR{v: hC02RealVerifier()}, policyBackend: pol}
+}
+
+type hC02OfferEngine struct {
+	storage.Engine
+	db storage.SessionDatabase
+}
+
+func (e hC02OfferEngine) GetSessionDatabase() storage.SessionDatabase { return e.db }
+
+const hC02OfferDomain = "https://n/oauth2/s"
 
 // H02b: replay window. One validly signed JSON-LD presentation (created, expires, nonce) is offered at
 // two clock readings t1 <= t2. Property: a nonce is accepted at most once ("carry a nonce not seen before").
@@ -95,17 +113,25 @@ func H02b() {
 	p.Created = created.t
 	p.Expires = &expires.t
 	p.Nonce = &nonce
+	dom := hC02OfferDomain
+	p.Domain = &dom
 	p.VerificationMethod = ssi.MustParseURI("did:web:a#k")
 	vp := hC02LdVP(p)
 
 	db := newHC02DB()
-	r := Wrapper{storageEngine: hC02Engine{db: db}, vcr: hC02VCR{v: hC02RealVerifier()}}
+	r := hC02OfferWrapper(db)
+	// client_id is an unauthenticated form parameter: the replay may name another client
+	// (drawn concretely: code that hashes or encodes the client id must not meet symbolic bytes)
+	vTag("client1")
+	client1 := []string{"a", "b"}[vChoice(2)]
+	vTag("client2")
+	client2 := []string{"a", "b"}[vChoice(2)]
 
 	hC02Clock = t1.t
-	acc1 := hC02Offer(r, vp)
+	acc1 := hC02Offer(r, vp, client1)
 	hC02Clock = t2.t
 	remembered := db.live("s2s/nonce", nonce) >= 0
-	acc2 := hC02Offer(r, vp)
+	acc2 := hC02Offer(r, vp, client2)
 
 	if acc1 {
 		vCover("first-accepted")
@@ -116,7 +142,11 @@ func H02b() {
 		}
 	}
 	if acc1 && acc2 {
-		vClass("replay after nonce forgotten")
+		if client1 != client2 && remembered {
+			vClass("replay under another client_id")
+		} else {
+			vClass("replay after nonce forgotten")
+		}
 	}
 	vAssert(!(acc1 && acc2), "H02b.nonce_single_use: the same presentation (same nonce) was accepted twice")
 	if !acc1 && acc2 {
@@ -133,11 +163,13 @@ func H02b_twin() {
 	p.Created = created.t
 	p.Expires = &expires.t
 	p.Nonce = &nonce
+	dom := hC02OfferDomain
+	p.Domain = &dom
 	p.VerificationMethod = ssi.MustParseURI("did:web:a#k")
 	db := newHC02DB()
-	r := Wrapper{storageEngine: hC02Engine{db: db}, vcr: hC02VCR{v: hC02RealVerifier()}}
+	r := hC02OfferWrapper(db)
 	hC02Clock = t1.t
-	if hC02Offer(r, hC02LdVP(p)) && db.live("s2s/nonce", nonce) >= 0 {
+	if hC02Offer(r, hC02LdVP(p), "c") && db.live("s2s/nonce", nonce) >= 0 {
 		vAssert(false, "H02b_twin.reach: reachable")
 	}
 }
